@@ -67,6 +67,18 @@ impl FromStr for Dist {
     }
 }
 
+/// Parameter with three capturing groups, followed by another argument.
+#[derive(Debug, Parameter)]
+#[param(regex = r"(\d+)s|(\d+)m|(\d+)h", name = "dur3")]
+pub struct Dur3(String);
+
+impl FromStr for Dur3 {
+    type Err = String;
+    fn from_str(s: &str) -> Result<Self, String> {
+        Ok(Dur3(s.to_owned()))
+    }
+}
+
 #[derive(Debug)]
 pub struct MyErr(&'static str);
 impl std::fmt::Display for MyErr {
@@ -140,6 +152,11 @@ fn custom_param(_: &mut ZooA, c: Color) {
 #[given(expr = "far {dist} away")]
 fn custom_multi(_: &mut ZooA, d: Dist) {
     rec(format!("custom_multi({})", d.0));
+}
+
+#[given(expr = "wait {dur3} then {word} {int}")]
+fn custom_multi3(_: &mut ZooA, d: Dur3, w: String, n: i32) {
+    rec(format!("custom_multi3({},{w},{n})", d.0));
 }
 
 #[when(regex = r"^async (\d+)$")]
@@ -350,6 +367,21 @@ pub fn entries() -> Vec<Entry> {
             let n = m.strip_suffix("km").or_else(|| m.strip_suffix("mi"))?;
             digits(n).then(|| Expect::Call(format!("custom_multi({n})")))
         }),
+        e(0, Given, "custom_multi3", |t| {
+            let v = toks(t);
+            if v.len() != 5 || v[0] != "wait" || v[2] != "then" || !no_ws(v[3]) || !int(v[4]) {
+                return None;
+            }
+            let n = v[1].strip_suffix('s').or_else(|| v[1].strip_suffix('m')).or_else(|| v[1].strip_suffix('h'))?;
+            if !digits(n) {
+                return None;
+            }
+            Some(if fits::<i32>(v[4]) {
+                Expect::Call(format!("custom_multi3({n},{},{})", v[3], v[4].parse::<i32>().unwrap()))
+            } else {
+                Expect::Fail(None)
+            })
+        }),
         e(0, When, "asy", |t| {
             let n = t.strip_prefix("async ")?;
             digits(n).then(|| {
@@ -438,6 +470,8 @@ pub fn texts(max_tokens: usize) -> Vec<String> {
         "expr string \"\"", "expr string hello", "expr string \"mixed'", "expr string \"a\" b",
         "optional text", "optionals text", "optional alt", "optionals alt", "optional(s) text", "optional text/alt",
         "optional", "custom red", "custom green", "custom blue", "custom purple", "custom RED", "custom red ",
+        "wait 5s then go 1", "wait 6m then go 2", "wait 7h then go 3", "wait 7d then go 3", "wait 5s then go x",
+        "wait s then go 1", "wait 5s then  1",
         "far 5km away", "far 7mi away", "far 5 away", "far km away", "far 5kmi away",
         "async 7", "async 256", "async x", "result ok", "result err", "result maybe",
         "async result ok", "async result no", "async result two words",
